@@ -139,6 +139,15 @@ EDITS = [
     ('evaluators.py', '                CK[k][:] = [drv + (bfunsders[k][j] * ctl_pt) for drv, ctl_pt in\n                            zip(CK[k], ctrlpts[span - degree + j])]\n\n        # Return the derivatives\n        return CK\n\n\n@utl.export\nclass CurveEvaluatorRational',
      '                CK[k][:] = [(ctl_pt * bfunsders[k][j]) + drv for drv, ctl_pt in\n                            zip(CK[k], ctrlpts[span - degree + j])]\n\n        # Return the derivatives\n        return CK\n\n\n@utl.export\nclass CurveEvaluatorRational',
      ['evaluators.CurveEvaluator.derivatives'], 'quiet'),
+    # ---- linalg.matrix_multiply
+    ('linalg.py', '                    mat3[i][j] += float(mat1[i][k] * mat2[k][j])', '                    mat3[i][j] += float(mat1[i][k] * mat2[j][k])',
+     ['linalg.matrix_multiply'], 'caught'),
+    ('linalg.py', '                for k in range(p2):\n                    mat3[i][j] += float(mat1[i][k] * mat2[k][j])',
+     '                for k in range(p2 - 1):\n                    mat3[i][j] += float(mat1[i][k] * mat2[k][j])', ['linalg.matrix_multiply'], 'caught'),
+    ('linalg.py', '            for j in range(m):\n                for k in range(p2):\n                    mat3[i][j] += float(mat1[i][k] * mat2[k][j])',
+     '            for j in range(1, m):\n                for k in range(p2):\n                    mat3[i][j] += float(mat1[i][k] * mat2[k][j])', ['linalg.matrix_multiply'], 'caught'),
+    ('linalg.py', '                    mat3[i][j] += float(mat1[i][k] * mat2[k][j])', '                    mat3[i][j] += float(mat2[k][j] * mat1[i][k])',
+     ['linalg.matrix_multiply'], 'quiet'),
     # ---- _linalg.doolittle (breaking, then harmless)
     ('_linalg.py', 'matrix_u[i][k] = float(matrix_a[i][k] - sum([matrix_l[i][j] * matrix_u[j][k] for j in range(0, i)]))',
      'matrix_u[i][k] = float(matrix_a[i][k] - sum([matrix_l[i][j] * matrix_u[j][k] for j in range(1, i)]))', ['_linalg.doolittle'], 'caught'),
